@@ -2476,6 +2476,36 @@ example : (match aggrRead sampleEnv .integer (IStream.ofBytes [40, 49, 44, 32, 4
     | .ok (sev, some [.atom (.int 1), .atom (.int 2)], s) => sev == .null && s.right == [44]
     | _ => false) = true := by decide
 
+/-- aggregate, never silent — the loop's part (`_partial`): for *any* stream and any element kind, when
+    `STEPaggregate::ReadValue` stores an aggregate and reports no error, then the severity is NULL, the input starts (after
+    blanks) with `(`, and what follows the token separators behind it is a `LoopRun`: a chain of element-reader calls none of
+    which reported WARNING, INPUT_ERROR or BUG, each followed by (blanks and) exactly one `,` — or the `)` that ends the run
+    — taken by the loop itself, and the stored list is exactly the values those calls returned, in order: no element is
+    dropped, repeated or invented, a missing comma or closing parenthesis is always reported.
+    Excluded, i.e. left to the element reader's own verdict on the bytes of one element position: (1) an *empty* position
+    (`(a,,b)`, `(a,)`, `(,a)`) — the readers of STRING, BOOLEAN, LOGICAL, ENUMERATION and entity references answer it with
+    nothing worse than INCOMPLETE, which the loop does not hand on (`C09_aggr_missing_element_witness`, finding
+    `agg:missing-element-read-as-unset`); (2) the lenient spellings each element reader accepts at attribute level
+    (`C09_never_silent_*`); the attribute-level never-silent theorems are stated for a stream that starts at the value and
+    are not transferred to mid-stream positions here. -/
+theorem C09_aggr_never_silent_partial {F} (env : Env F) (ty : ElemTy) (s : IStream) (sev : Sev) (es : List (Elem F))
+    (sf : IStream) (h : aggrRead env ty s = .ok (sev, some es, sf)) (hne : NoErr sev) :
+    sev = .null ∧ s.ws.peekC.1 = 40 ∧
+    ∃ c3 s6, LoopRun env ty c3 s6 es sf ∧
+      (let s4 := if env.cfg.aggrSkipsComments then readTokenSeparator (getInto 40 s.ws.peekC.2).2 else (getInto 40 s.ws.peekC.2).2.ws
+       (c3, s6) = (if s4.peekC.1 == 41 then getInto s4.peekC.1 s4.peekC.2 else (s4.peekC.1, s4.peekC.2))) :=
+  aggrRead_sound env ty s sev es sf h hne
+
+/-- a `LoopRun` stores one value per element-reader call (so the count of stored elements is the count of element positions) -/
+theorem C09_aggr_looprun_elements {F} (env : Env F) (ty : ElemTy) (c : Byte) (s sf : IStream) (vs : List (Elem F))
+    (h : LoopRun env ty c s vs sf) :
+    (vs = [] ∧ c = 41 ∧ sf = s) ∨
+    (∃ e v s1 c2 s3 rest, vs = v :: rest ∧ s.good = true ∧ c ≠ 41 ∧ elemRead env ty s = .ok (e, v, s1) ∧
+      ¬ e.toInt < Sev.incomplete.toInt ∧ getInto c s1.ws = (c2, s3) ∧ (c2 = 44 ∨ c2 = 41) ∧ LoopRun env ty c2 s3 rest sf) := by
+  cases h with
+  | close => exact Or.inl ⟨rfl, rfl, rfl⟩
+  | elem h1 h2 h3 h4 h5 h6 h7 => exact Or.inr ⟨_, _, _, _, _, _, rfl, h1, h2, h3, h4, h5, h6, h7⟩
+
 /-- what `aggrRead` answers: severity NULL and these elements -/
 def aggrSilent (o : Except Stop (Sev × Option (List (Elem Nat)) × IStream)) (vals : List (Elem Nat)) : Bool :=
   match o with
